@@ -201,6 +201,7 @@ def fixup(cls, ver, kw, added, all_=False):
         else:
             kw.pop('payload_bin', None); kw['hashes'] = {'MD5': 'a' * 32}
     if n == 'Artifact' and all_: kw.pop('encryption_algorithm', None) if ver == '2.1' and 'decryption_key' not in kw else None
+    if n == 'Artifact' and ver == '2.1' and 'decryption_key' in kw: kw.setdefault('encryption_algorithm', 'mime-type-indicated')          # (decryption_key MUST NOT be present without encryption_algorithm)
     if n == 'ObservedData' and ver == '2.1' and (added == 'objects' or all_): kw.pop('objects' if all_ else 'object_refs', None)
     if n == 'EmailMessage':
         if added in ('body',): kw['is_multipart'] = False
